@@ -45,7 +45,7 @@ def corpus():
     forms = ["lda #1\n", "lda ($10,x)\n", "lda ($10),y\n", "jmp ($1234)\n", "foo: {\n  nop\n}\n", ".const a = (1 + 2) * 3\n", ".byte 1, 2, <a\n", '.text petscii "hi {a}"\n',
              ".macro m(a, b) {\n lda #a\n}\nm(1, 2)\n", ".if defined(x) { nop } else { brk }\n", ".loop 3 { inx }\n", '.import * from "x.asm"\n', '.import a as b from "x.asm" {\n .const c = 1\n}\n',
              '.define segment {\n name = "a"\n start = $1000\n}\n', '.segment "a" { nop }\n', "* = $1000\n", ".align 8\n", '.test "t" {\n .assert 1 == 1 "msg"\n .trace (a, *)\n brk\n}\n', '.file "a.bin"\n',
-             "nop // c\n/* b /* n */ */ nop\n", ".var v = -1\n", "asl\nlsr a\n"]
+             "nop // c\n/* b /* n */ */ nop\n", ".var v = -1\n", "asl\nlsr a\n", '.const s = "x{a.b}y{-}" + "z"\n', '.assert a == 1 "m {a} n"\n', "lda #<a\nldx #>b.c\n", "m(1,\n  2)\n"]
     out += [("form-%d" % i, t) for i, t in enumerate(forms)]
     return out
 
@@ -110,6 +110,13 @@ def main(tier):
             ms = mutants(name, text, rnd, per)
         for m in ms:
             add(m, {"kind": "mutant", "name": name})
+    # a blank, a tab or a block comment at EVERY position of every statement form: wherever the parser accepts it without a
+    # diagnostic, it has to keep it (found the loss of trivia inside `"{ name}"`)
+    for name, text in corp:
+        if name.startswith("form-"):
+            for pos in range(len(text) + 1):
+                for tv in (" ", "\t", "/*c*/"):
+                    add(text[:pos] + tv + text[pos:], {"kind": "trivia-insertion", "name": name})
     # every layout/case variant of every statement form (the variant space of spec/Layout, enumerated by TLC)
     sys.path.insert(0, os.path.join(os.path.dirname(os.path.abspath(__file__)), "..", "C08"))
     import importlib.util
